@@ -11,6 +11,7 @@ import (
 	"fmt"
 	"os"
 	"runtime"
+	"runtime/debug"
 	"sort"
 	"strconv"
 	"strings"
@@ -185,6 +186,12 @@ func (o *Out) memCheck() bool {
 			rss = ms.Sys
 		}
 		if rss > o.memLimit() {
+			// garbage of finished executions may simply not have been collected yet
+			debug.FreeOSMemory()
+			o.Extra["forced_gc"]++
+			rss = procKB("/proc/self/status", "VmRSS:") << 10
+		}
+		if rss > o.memLimit() {
 			o.stopped = true
 			o.memStop = true
 			o.Cap("worker memory reached %d MiB (leaked goroutines of abandoned executions); remaining cells and executions not explored", rss>>20)
@@ -246,6 +253,14 @@ func (o *Out) Save() {
 	o.WallS = time.Since(o.start).Seconds()
 	for b, n := range vs.BoundDoneCounts {
 		o.Extra[fmt.Sprintf("explorations_completed_bound_%d", b)] += n
+	}
+	// resource figures of this worker (max over workers after the merge would be better; the sum is
+	// what the driver computes, so these are read per worker in out_<k>.json when debugging)
+	o.Extra["worker_goroutines_at_end"] += int64(runtime.NumGoroutine())
+	o.Extra["worker_rss_mib_at_end"] += int64(procKB("/proc/self/status", "VmRSS:") >> 10)
+	o.Extra["leaked_threads"] += vs.LeakedTotal
+	for k, n := range vs.LeakKinds {
+		o.Extra["leak:"+k] += n
 	}
 	sort.SliceStable(o.Violations, func(i, j int) bool { return o.Violations[i].Key < o.Violations[j].Key })
 	b, err := json.Marshal(o)
